@@ -88,6 +88,10 @@ pub struct ServerSetup<
 )]
 pub struct ClientRegistration<CS: CipherSuite> {
     pub(crate) oprf_client: voprf::OprfClient<CS::OprfCs>,
+    #[cfg_attr(
+        feature = "serde",
+        serde(deserialize_with = "crate::messages::canonical_elem::blinded::<CS, _>")
+    )]
     pub(crate) blinded_element: voprf::BlindedElement<CS::OprfCs>,
 }
 
